@@ -11,11 +11,12 @@
 (*   Submit{to}                     AddBlocks with the chain ending in `to`*)
 (*   Revert{b} / Apply{b}           the store saw RevertBlock / ApplyBlock *)
 (*   Done{tip}                      AddBlocks returned                     *)
-(*   Obs{p1,p2,eph,full,valid,mine,alias}  PoolTransactions +              *)
+(*   Obs{p1,p2,eph,full,valid,mine,alias,asked,found}  PoolTransactions +  *)
 (*                                  (full: the harness' own sum, logged    *)
 (*                                  for the audits; the spec recomputes it)*)
 (*                                  V2PoolTransactions reported, with the  *)
-(*                                  harness' concrete verdicts             *)
+(*                                  harness' concrete verdicts; asked /    *)
+(*                                  found: lookups by id right after it    *)
 (*   AddSet{kind,basis,set,r,alias} submission and its result              *)
 (*   Lookup{kind,id,r,k}            PoolTransaction / V2PoolTransaction    *)
 (*   Mine{r,ids}                    block assembled by coreutils.MineBlock *)
@@ -83,7 +84,7 @@ TObs ==
        /\ \A j \in 1..Len(p2) : ToSet(Ev.eph[j]) = EphAtTip(p2[j])
     /\ stale' = FALSE
     /\ act' = [op |-> "Revalidate"] /\ reply' = NoReply
-    /\ obs' = [ObsOK EXCEPT !.valid = Ev.valid, !.mine = Ev.mine, !.alias = Ev.alias]
+    /\ obs' = [ObsOK EXCEPT !.valid = Ev.valid, !.mine = Ev.mine, !.alias = Ev.alias, !.asked = ToSet(Ev.asked), !.found = ToSet(Ev.found)]
     /\ UNCHANGED <<sc, tip, sub, app, pc, utxo, offered>>
 
 TAddSet ==
